@@ -72,6 +72,8 @@ PROPS = {
             "parts": [{"engine": "e2e", "race": True, "test": "TestVF_C16", "quick": (4, 40), "thorough": (16, 500), "shrinktime": "15s", "quick_timeout": 600}]},
     "C17": {"level": "exploration", "assumptions": MP_ASSUME,
             "parts": [{"engine": "mp", "test": "TestVF_C17", "quick": (4, 750), "thorough": (16, 25000)}]},
+    "C18": {"level": "exploration", "assumptions": BASE_ASSUME + ["the harness does not own the scheduler: relative speeds of reader and writer are perturbed through GOMAXPROCS, CPU-burning goroutines, sender pacing and chunking; the race detector reports races on executions that occur", "one connection per output directory (file names have one-second resolution)"],
+            "parts": [{"engine": "tw", "race": True, "test": "TestVF_C18", "quick": (4, 12), "thorough": (16, 150), "shrinktime": "15s", "quick_timeout": 600}]},
     "C19": {
         "level": "exploration",
         "assumptions": BASE_ASSUME + ["every Move is preceded by a write into the current slot, as in both callers"],
